@@ -2186,3 +2186,62 @@ def varint_twin(ctx):
         else:
             ctx.violation(key, f.loc(0), 'this decoder rejects under %s, its twin %s under %s: one of them refuses encodings the other (and the writer) '
                           'treats as valid' % (sorted(conds ^ ref), ref_key, sorted(ref)))
+
+
+# --------------------------------------------------------------------------- ALONE-DICT-FORM (C03) - round 12
+
+@rule('ALONE-DICT-FORM', ['C03'], floor=1)
+def alone_dict_form(ctx):
+    """The .lzma (LZMA_Alone) header carries the dictionary size as a plain 32-bit number, and the reference decoder only
+    accepts the values its own encoder can produce: 2^n and 2^n + 2^(n-1) (liblzma, alone_decoder.c: anything else is
+    "File format not recognized"; checked here with `xz --format=lzma -dc` on a header patched to 100000: rejected, 65536
+    and 98304: accepted). A writer that wants its .lzma files to be readable by the reference therefore has to announce a
+    size of that form (rounding UP is always valid: the decoder only needs at least the size the encoder used). Obligation:
+    the variable whose bytes the header loop of LZMAWriter::new writes (`x & 0xFF`, `x >>= 8`) is not initialised with the
+    raw option field - some rounding stands between the option and the header."""
+    from lzlint.intervals import _strip
+    from lzlint.core import self_field_of, op_const, op_local
+    F = ctx.facts
+    fs = [f for f in F.fns if f.self_adt and last_seg(f.self_adt) == 'LZMAWriter' and f.name == 'new']
+    if not fs:
+        return ctx.anchor_missing('LZMAWriter::new')
+    f = fs[0]
+    prov = Prov(f)
+    key = '%s:header-dictionary-size-is-a-size-the-reference-accepts' % f.key
+    loops = f.loops()
+    body = set().union(*loops.values()) if loops else set()
+    cand = None
+    for bi, b in enumerate(f.blocks):
+        if bi not in body:
+            continue
+        for si, s in enumerate(b['stmts']):
+            if s['k'] == 'assign' and s['rv']['r'] == 'bin' and s['rv']['op'] == 'BitAnd':
+                k = op_const(s['rv']['b'])
+                l = op_local(s['rv']['a'])
+                if k is not None and k.get('v') == 0xFF and l is not None and s['rv'].get('aty') == 'u32' and cand is None:
+                    cand = (bi, l)
+    if cand is None:
+        return ctx.violation(key, f.loc(0), 'cannot find the loop that writes the four size bytes (`x & 0xFF`): anchor lost (fail closed)')
+    bi, l = cand
+    # the local may be a temporary copy: walk back to the named variable
+    seen = set()
+    while l is not None and l not in seen and not f.locals[l].get('name'):
+        seen.add(l)
+        nxt = None
+        for (db, ds, dk, node) in f.whole_defs(l):
+            if dk == 'assign' and node['rv']['r'] in ('use', 'cast'):
+                nxt = op_local(node['rv']['o'])
+        l = nxt
+    inits = []
+    for (db, ds, dk, node) in (f.whole_defs(l) if l is not None else []):
+        if db in body or dk != 'assign':
+            continue
+        inits.append((db, ds, _strip(prov.rvalue(node['rv'], 0, '%d:%d' % (db, ds)))))
+    if not inits:
+        return ctx.violation(key, f.loc(bi), 'no initialisation of the header size variable outside the loop: anchor lost (fail closed)')
+    raw = [(db, ds, e) for db, ds, e in inits if e[0] == 'field' and e[2] == 'dict_size']
+    if raw:
+        ctx.violation(key, f.loc(raw[0][0], raw[0][1]), 'the .lzma header announces `%s` as it is: for a dictionary size that is not 2^n or 2^n + 2^(n-1) '
+                      '(e.g. 100000) `xz` / liblzma refuse the file ("File format not recognized") although the stream is fine' % expr_str(raw[0][2]))
+    else:
+        ctx.ok(key, f.loc(inits[0][0], inits[0][1]), 'the header size is derived (%s), not the raw option' % expr_str(inits[0][2])[:60])
